@@ -386,6 +386,12 @@ func c04SingleBox(r *sim.Run, disk []byte) {
 	}
 	b := flat[t.Draw(len(flat))]
 	raw := append([]byte(nil), disk[b.Start:b.End()]...)
+	if t.Chance(300) {
+		// a box of ANY registered type with a seeded payload: most box types never occur in the corpus
+		raw = synthBox(t, t.Sub())
+		b = &ref.Box{Type: string(raw[4:8]), Start: 0, Size: int64(len(raw)), Hdr: 8}
+		r.Probe("single-box-synthetic")
+	}
 	// optional extra damage local to this box: cut its tail or enlarge/shrink its size field
 	switch t.Draw(4) {
 	case 1:
@@ -440,7 +446,7 @@ func init() {
 		ID:    "C04",
 		Level: "exploration",
 		Rule: "each run: a corpus file (<=512 kB) or a packager stream suffers 1..n compounding faults: unit transport at any depth (drop/duplicate/swap/move/splice/shrink a table box consistently/64-bit header form, enclosing sizes repaired or left stale), 0-3 stored-byte faults placed by an independent header walk on size, type, version/flags, count and early fields " +
-			"(bit flip, u32 := ffffffff/7fffffff/80000000/0/small/+small, header rewritten to 64-bit size form with sizes around 2^62/2^63/2^64, zeroed range, misdirected range), truncation, EIO at read k, seek error, short/zero/data+EOF delivery; 1-2 consumers (a single box taken from any depth decoded on its own by DecodeBox/DecodeBoxSR with optional local size damage, DecodeFile reader path, lazy-mdat mode on SimDisk, DecodeFileSR, DecodeBox/DecodeBoxSR loop) x flags {none, ISM, start-on-moof, both}; " +
+			"(bit flip, u32 := ffffffff/7fffffff/80000000/0/small/+small, header rewritten to 64-bit size form with sizes around 2^62/2^63/2^64, zeroed range, misdirected range), truncation, EIO at read k, seek error, short/zero/data+EOF delivery; 1-2 consumers (a single box taken from any depth, or a synthetic box of any registered type with a seeded payload, decoded on its own by DecodeBox/DecodeBoxSR with optional local size damage, DecodeFile reader path, lazy-mdat mode on SimDisk, DecodeFileSR, DecodeBox/DecodeBoxSR loop) x flags {none, ISM, start-on-moof, both}; " +
 			"on success Info at '', all:1, all:2, Size, Encode and EncodeSW in both fragment encode modes. Every library call is a step under three oracles: no panic, allocated bytes <= 160 MiB + 768/byte, wall <= 2 s + 200 us/byte (confirmed 3x; hangs by the coordinator watchdog in fresh processes). " +
 			"non-trivial = at least one fault fired; distinct = hash of (base, transport ops, byte faults, delivery, consumers, accept/reject outcomes).",
 		Assumptions: []string{"budget constants are ours (the property fixes none): chosen >=10x above the maxima measured on the unchanged tree (reported as measured_maxima) ", "Go cannot inject allocation failure: memory is measured (runtime/metrics heap allocs), not faulted",
